@@ -247,6 +247,9 @@ impl Node {
                 ctx.log(Ev::SendEnd { actor, port: 1000 + port as u16, msg: id, replies });
             }
             Op::Sched { kind, when, mode } => {
+                if msg.ttl == 0 || ctx.sched_budget.fetch_sub(1, Ordering::Relaxed) <= 0 {
+                    return;
+                }
                 let id = ctx.fresh_msg();
                 let sid = ctx.fresh_sid();
                 let mut m = Msg::new(&ctx, id, kind, msg.ttl.saturating_sub(1), child_salt(msg.salt, self.idx, op_idx));
